@@ -789,5 +789,42 @@ def r6_9(run):
     r5_8(run)
 
 
+def r6_10(run):
+    """the keys a group sum (or np.unique) returns are in increasing label order, whatever the row order of the element table; what is
+    stored at the rows of those keys must be in the same order: outputs of a grouping call over the *same* keys, never an array that
+    is still in table-row order (an input of the grouping call, or another array selected by the same mask)"""
+    from ..arrnf import key as tkey, walk, show as tshow, ite_leaves
+    from .c03 import accumulation_sites, _is_grouping, _group_keys_arg
+    ix = run.index
+    n = 0
+    for f, e, rows, unique, rmw, grp in accumulation_sites(ix):
+        if grp is None:
+            continue
+        n += 1
+        run.analysed(f)
+        keys = _group_keys_arg(grp)
+        sel = keys[2] if keys is not None and keys[0] == "idx" else None          # labels[<selection>]
+        bad = None
+        for _c, leaf in ite_leaves(e.value):
+            inside = set()
+            for x in walk(leaf):
+                if _is_grouping(x):
+                    k2 = _group_keys_arg(x)
+                    if k2 is None or tkey(k2) != tkey(keys):
+                        bad = bad or "output of a grouping over other keys: %s" % tshow(x)[:80]
+                    for y in walk(x):
+                        if y is not x:
+                            inside.add(id(y))
+            if sel is not None:
+                for x in walk(leaf):
+                    if x[0] == "idx" and tkey(x[2]) == tkey(sel) and id(x) not in inside and not any(
+                            _is_grouping(g_) and any(z is x for z in walk(g_)) for g_ in walk(leaf)):
+                        bad = bad or "array in table-row order: %s" % tshow(x)[:80]
+        run.ob("%s|%s|grouped-rows-get-grouped-values" % (f.short, tshow(e.index[1])[:24]), bad is None,
+               "values stored at the rows of the group keys are outputs of a grouping over the same keys", run.where(f, e.node), detail=bad)
+    run.stat("stores_at_group_key_rows", n)
+    run.floor(3)
+
+
 RULES = [("R6.1", r6_1), ("R6.2", r6_2), ("R6.3", r6_3), ("R6.4", r6_4), ("R6.5", r6_5), ("R6.6", r6_6), ("R6.7", r6_7), ("R6.8", r6_8),
-         ("R6.9", r6_9)]
+         ("R6.9", r6_9), ("R6.10", r6_10)]
